@@ -42,6 +42,15 @@ br_ecdsa_i31_bits2int(uint32_t *x,
 	}
 	br_i31_zero(x, ebitlen);
 	br_i31_decode(x, src, len);
+
+	/*
+	 * The decoding set x[0] to the true bit length of the value, which
+	 * is secret (the value may be the ECDSA nonce), and the loop of
+	 * the shift depends on x[0]. We use instead a length that covers
+	 * exactly the words that were written, which depends only on the
+	 * (public) source length.
+	 */
+	x[0] = (uint32_t)(((((uint32_t)len << 3) + 30) / 31) << 5);
 	br_i31_rshift(x, sc);
 	x[0] = ebitlen;
 }
